@@ -1358,8 +1358,27 @@ func ruleR13() *Rule {
 					nd++
 				}
 			}
-			c.add(statusOf(np >= 3), "role/postings", "-", "postings chunk size is derived at the build writer, the merge writer and the reader", fmt.Sprintf("only %d postings sites", np), []string{"C01", "C06", "C09"}, nil)
-			c.add(statusOf(nd >= 3), "role/docvalues", "-", "doc-value chunk size is derived at the build writer, the merge writer and the reader", fmt.Sprintf("only %d doc-value sites", nd), []string{"C03", "C06", "C09"}, nil)
+			// (the build and the merge writer may share one routine that derives it: a writer side and the
+			// reader side is what there has to be — on the pinned tree three sites each)
+			readerSide := func(role string) bool {
+				for _, s := range sites {
+					if s.role != role {
+						continue
+					}
+					for _, rn := range [][2]string{{"PostingsList", "read"}, {"SegmentBase", "VisitDocValues"}} {
+						f := c.p.Method(rn[0], rn[1])
+						if f == nil {
+							f = c.p.resolveRenamed(rn[0] + "." + rn[1])
+						}
+						if f != nil && (s.fn == f || c.p.reachableFrom(f)[s.fn]) {
+							return true
+						}
+					}
+				}
+				return false
+			}
+			c.add(statusOf(np >= 3 || (np >= 2 && readerSide("postings"))), "role/postings", "-", "postings chunk size is derived on the writer side (build, merge) and at the reader", fmt.Sprintf("only %d postings sites", np), []string{"C01", "C06", "C09"}, nil)
+			c.add(statusOf(nd >= 3 || (nd >= 2 && readerSide("docvalues"))), "role/docvalues", "-", "doc-value chunk size is derived on the writer side (build, merge) and at the reader", fmt.Sprintf("only %d doc-value sites", nd), []string{"C03", "C06", "C09"}, nil)
 		},
 	}
 }
